@@ -9,7 +9,6 @@ import (
 )
 
 type Locker = rs.Locker
-type Pool = rs.Pool
 type Map = rs.Map
 
 type Mutex struct {
@@ -153,4 +152,51 @@ func (c *Cond) Broadcast() {
 		return
 	}
 	vrt.CondSignal(&c.st, true)
+}
+
+// Pool models sync.Pool under the scheduler as one shared LIFO free list: Get hands out the
+// most recently Put object (the behaviour of a single-P process, and the one that makes
+// aliasing between a returned object and its next user visible); Get and Put are visible
+// operations, so another goroutine can be scheduled between a Put and whatever the putter
+// still does with the object.  The list lives in the execution, not in the Pool.
+type Pool struct {
+	New  func() any
+	real rs.Pool
+}
+
+func (p *Pool) Get() any {
+	if vrt.S == nil {
+		if x := p.real.Get(); x != nil {
+			return x
+		}
+		if p.New != nil {
+			return p.New()
+		}
+		return nil
+	}
+	vrt.Touch("sync.Pool")
+	l := vrt.Local(p)
+	if l != nil && len(*l) > 0 {
+		x := (*l)[len(*l)-1]
+		*l = (*l)[:len(*l)-1]
+		return x
+	}
+	if p.New != nil {
+		return p.New()
+	}
+	return nil
+}
+
+func (p *Pool) Put(x any) {
+	if vrt.S == nil {
+		p.real.Put(x)
+		return
+	}
+	vrt.Touch("sync.Pool")
+	if x == nil {
+		return
+	}
+	if l := vrt.Local(p); l != nil {
+		*l = append(*l, x)
+	}
 }
